@@ -127,6 +127,16 @@ def run(ctx):
                 trees.append(('gp', [('coef', [('arg', 1)], [nm], 'method'), ('arg', nargs)], [], 'infix'))
             if q:
                 trees = rng.sample(trees, min(len(trees), 70 if d == 2 else 45))
+            if nargs == 1:
+                # coefficient access through the algebra's OWN blade names, canonical and permuted spellings (a permuted
+                # spelling reads the coefficient with the sign of the permutation, as MultiVector.__getattr__ does)
+                from kdriver import make_algebra as _mk
+                cn = list(_mk(u).canon2bin)
+                sp = [n_ for n_ in cn if len(n_) == 3][:2] + [n_ for n_ in cn if len(n_) == 4][:1]
+                perm = [n_[0] + n_[1:][::-1] for n_ in sp] + [n_[0] + n_[2:] + n_[1] for n_ in sp if len(n_) == 4]
+                for nm in sp + perm:
+                    trees.append(('coef', [('arg', 1)], [nm], 'method'))
+                    trees.append(('gp', [('coef', [('arg', 1)], [nm], 'method'), ('arg', 1)], [], 'infix'))
             if nargs == 1 and d == 2:
                 # a plain number added to / subtracted from a FRACTION-valued subexpression (inverse, quotient, negative power),
                 # on either side: the code-generation symbols must add k * denominator, not k, to the numerator
